@@ -203,3 +203,73 @@ impl Units {
         m
     }
 }
+
+pub fn parse_factor(s: &str) -> Option<FactorDesc> {
+    let p: Vec<&str> = s.split(':').collect();
+    if p.len() != 3 {
+        return None;
+    }
+    let (n, d) = p[2].split_once('/')?;
+    Some(FactorDesc {
+        unit: p[0].to_string(),
+        binary: p[1].starts_with('b'),
+        prefix_exp: p[1][1..].parse().ok()?,
+        num: n.parse().ok()?,
+        den: d.parse().ok()?,
+    })
+}
+
+pub fn parse_unit(s: &str) -> Option<Vec<FactorDesc>> {
+    let inner = s.strip_prefix('[')?.strip_suffix(']')?;
+    if inner.is_empty() {
+        return Some(vec![]);
+    }
+    inner.split(',').map(parse_factor).collect()
+}
+
+/// numbat source text of an f64 (shortest round-trip decimal; keywords for the specials)
+pub fn num_src(x: f64) -> String {
+    if x.is_nan() {
+        "NaN".into()
+    } else if x == f64::INFINITY {
+        "inf".into()
+    } else if x == f64::NEG_INFINITY {
+        "(-inf)".into()
+    } else if x < 0.0 || (x == 0.0 && x.is_sign_negative()) {
+        format!("(-{:?})", -x)
+    } else {
+        format!("{:?}", x)
+    }
+}
+
+/// numbat source text of a quantity whose unit factors carry no prefix: `(value * (u1^(n/d) * u2 ...))`
+pub fn q_src(q: &QDesc) -> String {
+    let mut s = num_src(f64::from_bits(q.bits));
+    for f in &q.factors {
+        assert!(f.prefix_exp == 0);
+        if f.den == 1 && f.num == 1 {
+            s.push_str(&format!(" * {}", f.unit));
+        } else {
+            s.push_str(&format!(" * {}^({}/{})", f.unit, f.num, f.den));
+        }
+    }
+    format!("({})", s)
+}
+
+/// run `code` on a clone of `ctx`; canonical outcome text
+pub fn interpret_bool(ctx: &Context, code: &str) -> String {
+    let mut c = ctx.clone();
+    match crate::catch(std::panic::AssertUnwindSafe(|| c.interpret(code, CodeSource::Internal))) {
+        Err(p) => format!("panic {}", p),
+        Ok(Ok((_, numbat::InterpreterResult::Value(numbat::value::Value::Boolean(b))))) => format!("bool {}", b),
+        Ok(Ok(_)) => "other".into(),
+        Ok(Err(e)) => match *e {
+            numbat::NumbatError::RuntimeError(ref r) => {
+                let t = format!("{}", r);
+                if t.contains("can not be converted") { "err incompatible".into() } else { format!("err runtime {}", t) }
+            }
+            numbat::NumbatError::TypeCheckError(_) => "err type".into(),
+            ref other => format!("err other {}", other),
+        },
+    }
+}
